@@ -807,12 +807,40 @@ impl RenderNode {
     }
 
     /// Return true if this node holds nothing but fragment start markers.
+    /// (Iterative, as containers can be nested arbitrarily deeply.)
     fn is_only_frag_starts(&self) -> bool {
-        match self.info {
-            RenderNodeInfo::FragStart(_) => true,
-            RenderNodeInfo::Container(ref v) => v.iter().all(RenderNode::is_only_frag_starts),
-            _ => false,
+        let mut pending = vec![self];
+        while let Some(node) = pending.pop() {
+            match node.info {
+                RenderNodeInfo::FragStart(_) => (),
+                RenderNodeInfo::Container(ref v) => pending.extend(v.iter()),
+                _ => return false,
+            }
         }
+        true
+    }
+
+    /// Return true if nothing in this subtree is shallow-non-empty, looking
+    /// through the nodes which only group other nodes.
+    fn is_deep_empty(&self) -> bool {
+        use RenderNodeInfo::*;
+        let mut pending = vec![self];
+        while let Some(node) = pending.pop() {
+            match node.info {
+                Container(ref v)
+                | Em(ref v)
+                | Strong(ref v)
+                | Strikeout(ref v)
+                | Code(ref v)
+                | Sup(ref v) => pending.extend(v.iter()),
+                _ => {
+                    if !node.is_shallow_empty() {
+                        return false;
+                    }
+                }
+            }
+        }
+        true
     }
 
     /// Return true if this node is definitely empty.  This is used to quickly
@@ -1629,11 +1657,12 @@ fn process_dom_node<T: Write>(
                         cons: if let Some(href) = target {
                             let href: String = href.into();
                             Box::new(move |_, cs: Vec<RenderNode>| {
-                                if cs.iter().any(|c| !c.is_shallow_empty()) {
+                                if cs.iter().any(|c| !c.is_deep_empty()) {
                                     Ok(Some(RenderNode::new_styled(Link(href, cs), computed)))
-                                } else if cs.iter().any(|c| matches!(&c.info, Text(t) if !t.is_empty())) {
-                                    // No link text, but keep white space so that the
-                                    // words on either side are not joined together.
+                                } else if !cs.is_empty() {
+                                    // No link text, but keep the children (white space,
+                                    // fragment markers) so that e.g. the words on either
+                                    // side are not joined together.
                                     Ok(Some(RenderNode::new_styled(Container(cs), computed)))
                                 } else {
                                     Ok(None)
